@@ -69,7 +69,7 @@ THOROUGH_CFGS = sorted(set(THOROUGH_CFGS + QUICK_CFGS))
 
 FUZZ_TARGETS = [
     FuzzTarget("fuzz_arith", "fuzz_arith.c", cfgs={"quick": QUICK_CFGS, "thorough": THOROUGH_CFGS},
-               runs={"quick": 400000, "thorough": 6000000}, workers={"quick": 3, "thorough": 2},
+               runs={"quick": 120000, "thorough": 2000000}, workers={"quick": 2, "thorough": 2},
                max_len=1536, corpus="fuzz_arith", link=("-lgmp",), timeout=120),
 ]
 
@@ -197,9 +197,9 @@ def run_refhash(env, case):
 
 
 TESTS = [
-    Test("ref_hash", refhash_case, run_refhash, quick=300, thorough=3000, cfgs={"quick": ["prod"], "thorough": ["prod"]}, must_cover=["keylen>64", "keylen<=64"]),
-    Test("pubkey_create", create_case, run_create, quick=600, thorough=20000, cfgs=E1_CFGS, must_cover=["valid", "invalid"]),
-    Test("pubkey_tweak_mul", tweak_case, run_tweak_mul, quick=500, thorough=16000, cfgs=E1_CFGS, must_cover=["valid", "invalid", "lifted"]),
-    Test("ecdh", tweak_case, run_ecdh, quick=500, thorough=16000, cfgs=E1_CFGS, must_cover=["valid", "invalid"]),
-    Test("tagged_sha256", tagged_case, run_tagged, quick=500, thorough=8000, cfgs=E1_CFGS, must_cover=["len<=64", "len<=1000", "len>1000"]),
+    Test("ref_hash", refhash_case, run_refhash, quick=200, thorough=3000, cfgs={"quick": ["prod"], "thorough": ["prod"]}, must_cover=["keylen>64", "keylen<=64"]),
+    Test("pubkey_create", create_case, run_create, quick=400, thorough=20000, cfgs=E1_CFGS, must_cover=["valid", "invalid"]),
+    Test("pubkey_tweak_mul", tweak_case, run_tweak_mul, quick=300, thorough=16000, cfgs=E1_CFGS, must_cover=["valid", "invalid", "lifted"]),
+    Test("ecdh", tweak_case, run_ecdh, quick=300, thorough=16000, cfgs=E1_CFGS, must_cover=["valid", "invalid"]),
+    Test("tagged_sha256", tagged_case, run_tagged, quick=400, thorough=8000, cfgs=E1_CFGS, must_cover=["len<=64", "len<=1000", "len>1000"]),
 ]
